@@ -148,6 +148,26 @@ def op_origin_builder(P):
         b.end_cell()
 
 
+def _origin_first(write):
+    def op(P):
+        b = P['builder']
+        if b is not None:
+            write(b, P)
+            b.end_cell()
+    return op
+
+
+# the first write after end_cell() through each family of store methods (they do not all reach the bits the same way)
+op_origin_uint = _origin_first(lambda b, P: b.store_uint(5, 3))
+op_origin_bytes = _origin_first(lambda b, P: b.store_bytes(b'\x5a'))
+op_origin_coins = _origin_first(lambda b, P: b.store_coins(300))
+op_origin_ref = _origin_first(lambda b, P: b.store_ref(P['other']))
+op_origin_addr = _origin_first(lambda b, P: b.store_address(None))
+for _n, _f in (('origin_uint', op_origin_uint), ('origin_bytes', op_origin_bytes), ('origin_coins', op_origin_coins), ('origin_ref', op_origin_ref),
+               ('origin_addr', op_origin_addr)):
+    _f.__name__ = 'op_' + _n
+
+
 def op_copy_then_mutate(P):
     cp = P['cell'].copy()
     cp.to_builder().store_ref(P['other'])
@@ -217,7 +237,7 @@ def op_vmstack(P):
 
 
 OPS = {f.__name__[3:]: f for f in (op_slice_consume, op_slice_drain, op_slice_containers, op_slice_to_cell_builder, op_to_builder_store,
-                                   op_to_builder_end, op_origin_builder, op_copy_then_mutate, op_boc_opts, op_boc_other_first,
+                                   op_to_builder_end, op_origin_builder, op_origin_uint, op_origin_bytes, op_origin_coins, op_origin_ref, op_origin_addr, op_copy_then_mutate, op_boc_opts, op_boc_other_first,
                                    op_order_hash, op_parent, op_store_cell_slice, op_hashmap, op_vmstack)}
 ROUTES = ['builder', 'builder_to_cell', 'plain5', 'plain8', 'plain0', 'tvm', 'boc', 'slice', 'copy']
 
